@@ -4,6 +4,11 @@
 
 package gi
 
+// C07, package-wide: a function that evaluates Lisp forms itself forwards the
+// return-from / go marker an evaluation hands back: nothing more is evaluated
+// and the marker is the function's result.
+//@ every-function gi forward-exits
+
 // with-mutex-lock: the mutex is held while every body form is evaluated and
 // the lock balance at every return equals the balance at entry.
 //@ func gi.(*WithMutexLock).Call
